@@ -133,6 +133,26 @@ def gen_schedule(rng, opts, status_targets):
             if rng.random() < 0.2:
                 r['then'].append({'target': 'V', 'attr': 'setting', 'value': rng.choice([1.0, 30.0])})
             out.append(r)
+    # clusters: several simple controls inside one hydraulic step, some of them changing nothing (a link set to the
+    # value it already has), at instants on and off the rule grid - the partial-step bookkeeping must survive them
+    if rng.random() < 0.4:
+        hyd, rs = opts['hyd'], opts['rule']
+        base = hyd * rng.randint(0, max(1, opts['duration'] // hyd - 1))
+        offs = set()
+        for _ in range(rng.randint(2, 4)):
+            if rs < hyd and rng.random() < 0.6:
+                offs.add(rs * rng.randint(1, max(1, hyd // rs - 1)) if hyd // rs > 1 else rng.randint(1, hyd - 1))
+            else:
+                offs.add(rng.randint(1, hyd - 1))
+        used = set(cs.get('target') for cs in out if cs['kind'] != 'rule') | set(a_['target'] for cs in out if cs['kind'] == 'rule' for a_ in cs['then'] + cs.get('else', []))
+        free = [x for x in status_targets if x not in used]
+        for k, off in enumerate(sorted(offs)):
+            nm = 'k%d' % (k + 1)
+            if free and (k == 0 or rng.random() < 0.4):
+                out.append({'kind': 'time', 'name': nm, 'time': base + off, 'target': rng.choice(free), 'attr': 'status', 'value': 'OPEN'})   # no change
+            else:
+                out.append({'kind': 'time', 'name': nm, 'time': base + off, 'target': rng.choice(status_targets), 'attr': 'status',
+                            'value': rng.choice(['OPEN', 'CLOSED', 'CLOSED'])})
     # force some same-instant conflicts with different priorities
     rules = [r for r in out if r['kind'] == 'rule']
     if len(rules) >= 2 and rng.random() < 0.5:
